@@ -645,7 +645,11 @@ theorem store_level_refines_chain {σ : Type} (newBackend : Bool) (sem : StateSe
 
 /-- … and EXACTLY which blocks the concrete `Store` refuses although the abstract one accepts them: those
 on which `MessageHash` panics (an L1 handler without calldata) and those the casm-metadata step rejects.
-No I/O class can occur: on such a node `headStateRoot` always finds the header it reads. -/
+No I/O class can occur: on such a node `headStateRoot` always finds the header it reads.
+LIMIT of the store-level model (round 5): the V2 hash of a compiled class is the TOTAL function `v2of`; when the
+real `CasmClass.Hash` does not return (nil `Compiled`, segment lengths beyond the bytecode) `Store` panics in the
+casm step of a block below 0.14.1 — characterised separately: `compiled_class_hash_panics_iff_flat`,
+`store_panics_on_malformed_compiled_class`. -/
 theorem store_level_success_iff {σ : Type} (newBackend : Bool) (sem : StateSem σ) (n : NodeS σ) (B : Bundle)
     (commitments : Nat) (v2of : Nat → Nat) (hi : DBInv n.db n.chain) :
     (∃ n', storeDB newBackend sem n B commitments v2of = .ok n') ↔
@@ -947,6 +951,55 @@ theorem tamper_rejected_post07 {σ : Type} (sem : StateSem σ) (net : Net) (c c'
     · exact absurd htx.symm h
     · exact absurd hev.symm h
 
+/-- For ALL pairs of histories (the all-formats companion of `stored_same_hash_same_content_*`): whatever two nodes
+were offered, two STORED blocks that declare the same hash (outside an unverifiable range) have the same number of
+transactions, the same header `TransactionCount`, and — every format but pre-0.7 — the same number of events and the
+same `EventCount`; so if one of them has count = length, the other has. -/
+theorem stored_same_hash_same_lengths_and_counts {σ : Type} (sem : StateSem σ) (net : Net) (st0 st0' : σ)
+    (Bs Bs' : List Bundle) (B B' : Bundle)
+    (hB : B ∈ (run sem net ⟨none, st0, []⟩ Bs).stored) (hB' : B' ∈ (run sem net ⟨none, st0', []⟩ Bs').stored)
+    (hu : inUnverifiable net B.block.header.number = false) (hu' : inUnverifiable net B'.block.header.number = false)
+    (hsame : B'.block.header.hash = B.block.header.hash) :
+    B.block.txs.length = B'.block.txs.length ∧ B.block.header.txCount = B'.block.header.txCount ∧
+    B.block.txs.length = B.block.receipts.length ∧ B'.block.txs.length = B'.block.receipts.length ∧
+    (dispatch net B.block.header.number B.block.header.version ≠ some .pre07 →
+      eventTotal B.block.receipts = eventTotal B'.block.receipts ∧ B.block.header.eventCount = B'.block.header.eventCount) := by
+  have hv := chainOK_mem_verified sem net st0 _ _ _ (run_preserves sem net st0 Bs ⟨none, st0, []⟩ ChainOK.empty) B hB
+  have hv' := chainOK_mem_verified sem net st0' _ _ _ (run_preserves sem net st0' Bs' ⟨none, st0', []⟩ ChainOK.empty) B' hB'
+  obtain ⟨ov, _, hh⟩ := hv.hash hu
+  obtain ⟨ov', _, hh'⟩ := hv'.hash hu'
+  rw [hsame] at hh'
+  obtain ⟨l1, c1, h3, _⟩ := same_hash_same_lengths_and_counts net B.block B'.block B.su.diff B'.su.diff ov ov' _ hh hh'
+  exact ⟨l1, c1, hv.lens, hv'.lens, h3⟩
+
+/-- the same for the content of the post-0.7 format (blocks that carry their sequencer address): for ALL pairs of
+histories, two stored blocks with the same declared hash have the same format, header view, transaction hashes with
+their committed signatures, and events. -/
+theorem stored_same_hash_same_content_post07 {σ : Type} (sem : StateSem σ) (net : Net) (st0 st0' : σ)
+    (Bs Bs' : List Bundle) (B B' : Bundle) (s s' : Term)
+    (hB : B ∈ (run sem net ⟨none, st0, []⟩ Bs).stored) (hB' : B' ∈ (run sem net ⟨none, st0', []⟩ Bs').stored)
+    (hu : inUnverifiable net B.block.header.number = false) (hu' : inUnverifiable net B'.block.header.number = false)
+    (hs : B.block.header.sequencer = some s) (hs' : B'.block.header.sequencer = some s')
+    (hf : dispatch net B.block.header.number B.block.header.version = some .post07)
+    (hsame : B'.block.header.hash = B.block.header.hash) :
+    dispatch net B'.block.header.number B'.block.header.version = some .post07 ∧
+    (⟨B.block.header.number, B.block.header.stateRoot, s, B.block.header.timestamp, B.block.header.txCount,
+      B.block.header.eventCount, B.block.header.parentHash⟩ : HeaderViewPost07)
+      = ⟨B'.block.header.number, B'.block.header.stateRoot, s', B'.block.header.timestamp, B'.block.header.txCount,
+         B'.block.header.eventCount, B'.block.header.parentHash⟩ ∧
+    B.block.txs.map (sigViewPedersen (allSigsOf B.block)) = B'.block.txs.map (sigViewPedersen (allSigsOf B'.block)) ∧
+    eventsOnly B.block.receipts = eventsOnly B'.block.receipts := by
+  have hv := chainOK_mem_verified sem net st0 _ _ _ (run_preserves sem net st0 Bs ⟨none, st0, []⟩ ChainOK.empty) B hB
+  have hv' := chainOK_mem_verified sem net st0' _ _ _ (run_preserves sem net st0' Bs' ⟨none, st0', []⟩ ChainOK.empty) B' hB'
+  have hh := verified_uses_own_sequencer net B hv s hs hu
+  have hh' := verified_uses_own_sequencer net B' hv' s' hs' hu'
+  rw [hsame] at hh'
+  obtain ⟨hd, q, q', hq, hq', hview, htx, hev⟩ :=
+    blockHash_post07_inj net B.block B'.block B.su.diff B'.su.diff none none _ hf hh hh'
+  simp only [hs, hs', Option.some.injEq] at hq hq'
+  subst hq hq'
+  exact ⟨hd, hview, htx, hev⟩
+
 /-- a self-consistent 0.14.0 block whose header says 7 transactions and 9 events while its body has one
 transaction and one event: the hash is computed by juno's own rule (header counts + commitments over the content) -/
 def exCntHeader0 : Header :=
@@ -1244,6 +1297,11 @@ example : verifyClassHashesT false [(exSierraKey, .sierra { exSierra with semant
 /-- an adapted class (`adaptSierra`): hypotheses of `adapted_class_hash_commits_definition` -/
 example : (sierraClassHashWith false (adaptSierra exSierra)).isSome = true ∧
     sierraClassHashWith false (adaptSierra { exSierra with program := [.felt 1, .felt 2, .felt 4] }) ≠ sierraClassHashWith false (adaptSierra exSierra) := by decide
+
+/-- hypotheses of the two all-histories theorems of round 5: the example blocks ARE stored by the histories that offer them
+(after a rejected tampered copy, too) -/
+example : exBundle ∈ (run exSem exNet exChain [exEmptied, exBundle]).stored ∧
+    exOldBundle ∈ (run exOldSem exOldNet exOldChain [exOldBundle]).stored := by decide
 
 end Examples
 
